@@ -28,7 +28,7 @@ PROPS["C20"] = {
              "enumeration of zero, all-one, 128 single-bit and single-zero-bit values, leading-zero-byte values, 62^k+-2 (k=0..22), "
              "64 values next to 0 and 2^128-1; parse: strings from any runes / raw bytes / base-62 digit strings of length 21-24 / "
              "the exact +-40 neighbourhood of 2^128 / digits with a foreign rune / up to 300 digits; hash: NewHash called 4 times, "
-             "twice concurrently. Non-trivial: id != 0 (roundtrip, boundary), string non-empty (parse), >=1 input (hash); distinct by "
+             "twice concurrently; pattern: a key:id62 field in 7 positions (plain, required, optional, array item, map value, entity key, request/response) is compiled and the emitted (buf.validate) string pattern must equal the published pattern, match String() of generated ids and reject near-misses. Non-trivial: id != 0 (roundtrip, boundary), string non-empty (parse), >=1 input (hash); distinct by "
              "64-bit hash of the case."),
     "assumptions": ["the digit alphabet used by the overflow reference is recovered from String() of 0..61 (not hard-coded)",
                     "signed strings such as \"-1\" are outside the statement and not judged"],
@@ -37,6 +37,7 @@ PROPS["C20"] = {
         lane("TestRoundtrip", "roundtrip", 100000, 400000, shards=16),
         lane("TestParse", "parse", 100000, 400000, shards=16, must_classes=["digits>=2^128", "digits<2^128", "non-digit"]),
         lane("TestHash", "hash", 5000, 50000, shards=4),
+        lane("TestPattern", "pattern", 150, 1500, shards=4, must_classes=["position:array", "position:entity", "position:request"]),
     ],
 }
 
@@ -341,7 +342,7 @@ PROPS["C12"] = {
              "Distinct by hash(declaration, candidates)."),
     "assumptions": ["bounds are inclusive unless the exclusive flag is true; required means present (non-zero for fields without presence); pattern is an RE2 search"],
     "lanes": [
-        lane("TestRules", "rules", 600, 3000, shards=16, must_classes=["both-verdicts", "kind:integer:INT32", "kind:enum", "kind:array:string"]),
+        lane("TestRules", "rules", 600, 3000, shards=16, must_classes=["both-verdicts", "kind:integer:INT32", "kind:enum", "kind:array:string", "kind:map:string", "kind:map:key"]),
     ],
 }
 
